@@ -803,7 +803,34 @@ class Executor:
         yield st, ("lambda", node, st.frame.mod)
 
     def ex_ListComp(self, node, st):
-        yield st, self._opaque(node, st, "comp")
+        """A comprehension is ('comp', text, deps, elt term, (iterable terms...)): the element expression is evaluated
+        once with the targets bound to ('compvar', uid, name); effects inside it are not recorded."""
+        base = self._opaque(node, st, "comp")
+        try:
+            s2 = st.fork()
+            uid = s2.new_uid()
+            iters = []
+            from .loader import _target_names
+            for g in node.generators:
+                its = list(self.eval(g.iter, s2))
+                if len(its) != 1 or is_raise(its[0][1]):
+                    raise ValueError
+                s2, it = its[0]
+                iters.append(it)
+                names = set()
+                _target_names(g.target, names)
+                if isinstance(g.target, ast.Name):
+                    s2.frame.env[g.target.id] = ("compvar", uid, g.target.id)
+                else:
+                    for nme in names:
+                        s2.frame.env[nme] = ("compvar", uid, nme)
+            elt = node.elt if not isinstance(node, ast.DictComp) else node.value
+            res = list(self.eval(elt, s2))
+            if len(res) != 1 or is_raise(res[0][1]):
+                raise ValueError
+            yield st, base + (res[0][1], tuple(iters))
+        except Exception:
+            yield st, base
 
     ex_SetComp = ex_DictComp = ex_GeneratorExp = ex_ListComp
 
